@@ -1,6 +1,8 @@
-(** C05 — non-vacuity: the model runs on literals. *)
-From Coq Require Import List Arith Bool.
-From RlibV Require Import C05.Model C05.Spec.
+(** C05 — non-vacuity: the model runs on literals, and every hypothesis of the property theorems
+    ([reach], index bounds, [is_lookup], a returning [step], [chain], [class_card], [mreach]) has a
+    concrete instance. *)
+From Coq Require Import List Arith Bool Lia.
+From RlibV Require Import C05.Model C05.Spec C05.Corr C05.Properties.
 Import ListNotations.
 
 Example ex_un : un (new 4) 0 1 = Ok (mk [1;1;2;3] [1;2;1;1], true).
@@ -11,3 +13,64 @@ Example ex_reset_shrink : reset (mk [1;1;2;3] [1;2;1;1]) 2 = Ok (new 2).
 Proof. reflexivity. Qed.
 Example ex_panic : par (new 3) 3 = Panic.
 Proof. reflexivity. Qed.
+Example ex_panic_empty : par (new 0) 0 = Panic.
+Proof. reflexivity. Qed.
+
+(** the repository's unit-test scenario: un(0,1), un(2,3), un(1,3) on four elements *)
+Definition s3 : dsu := mk [1;3;3;3] [1;2;1;4].
+Definition es3 : list (nat * nat) := [(0,1);(2,3);(1,3)].
+
+Example ex_reach : reach 4 es3 s3.
+Proof.
+  apply (reach_step 4 [(0,1);(2,3)] (mk [1;1;3;3] [1;2;1;2]) (Un 1 3) s3 (RB true)); [|reflexivity].
+  apply (reach_step 4 [(0,1)] (mk [1;1;2;3] [1;2;1;1]) (Un 2 3) _ (RB true)); [|reflexivity].
+  apply (reach_step 4 [] (new 4) (Un 0 1) _ (RB true)); [|reflexivity]. apply reach_new.
+Qed.
+
+(** a reset (shrinking) and a later union are reachable too *)
+Example ex_reach_reset : reach 2 [(1,0)] (mk [0;0] [2;1]).
+Proof.
+  apply (reach_step 2 [] (new 2) (Un 1 0) _ (RB true)); [|reflexivity].
+  apply (reach_step 4 es3 s3 (Reset 2) _ RU); [exact ex_reach|reflexivity].
+Qed.
+
+Example ex_lookup_step : is_lookup (Par 0) = true /\ step s3 (Par 0) = Ok (mk [3;3;3;3] [1;2;1;4], RN 3).
+Proof. split; reflexivity. Qed.
+Example ex_conn : conn es3 0 2.
+Proof.
+  apply conn_trans with 1; [apply conn_edge; cbn; auto|].
+  apply conn_trans with 3; [apply conn_edge; cbn; auto|]. apply conn_sym, conn_edge; cbn; auto.
+Qed.
+(** element 0 sits at depth 2 = log2 4 below the root 3 *)
+Example ex_chain : chain (p s3) 0 3 2.
+Proof.
+  apply chain_up with 1; [reflexivity|discriminate|].
+  apply chain_up with 3; [reflexivity|discriminate|]. apply chain_root. reflexivity.
+Qed.
+Example ex_depth : 2 <= Nat.log2 4.
+Proof. cbn. lia. Qed.
+
+(** the theorems applied to the instance *)
+Example ex_check : exists s' b, step s3 (Check 0 2) = Ok (s', RB b) /\ (b = true <-> conn es3 0 2).
+Proof. apply (c05_partition 4 es3 s3 0 2 ex_reach); lia. Qed.
+Example ex_size : exists s' k, step s3 (Size 0) = Ok (s', RN k) /\ class_card 4 es3 0 k.
+Proof. apply (c05_size_is_cardinality 4 es3 s3 0 ex_reach); lia. Qed.
+
+Example ex_mreach : mreach [mk [1;1] [1;2]; new 2].
+Proof.
+  apply (mreach_step [new 2; new 2] (On 0 (Un 0 1)) _ 0 (RB true)); [|reflexivity].
+  apply (mreach_step [new 2] (Clone 0) _ 1 RU); [|reflexivity]. apply mreach_new.
+Qed.
+
+(** a history as a list, with a reset in the middle: the ghost state restarts at the reset *)
+Example ex_run : run (new 4) [Un 0 1; Un 2 3; Reset 3; Un 2 0; Check 0 2; Size 1]
+                 = Ok (mk [0;1;0] [2;1;1], [RB true; RB true; RU; RB true; RB true; RN 1]).
+Proof. reflexivity. Qed.
+Example ex_ghost_run : ghost_run 4 [] [Un 0 1; Un 2 3; Reset 3; Un 2 0; Check 0 2; Size 1] = (3, [(2,0)]).
+Proof. reflexivity. Qed.
+
+(** a correspondence case on which [model_check] holds (hypothesis of c05_model_check_implies_spec_check) *)
+Example ex_case : model_check (mkcase d2 [NUn d0 d0 d1; NClone d0; NPar d1 d0]
+                                 [(OB true, Some ([d1;d1],[d1;d2])); (OU, Some ([d1;d1],[d1;d2])); (ON d1, None)]
+                                 [([d1;d1],[d1;d2]); ([d1;d1],[d1;d2])]) = true.
+Proof. vm_compute. reflexivity. Qed.
